@@ -44,12 +44,20 @@ pub fn exec(rec: &Value, _st: &mut State) -> Value {
     let mut q = Q::new();
     match op {
         "curve" => {
-            let pts: Vec<Point2> = gvvi(rec, "ref").iter().map(|p| Point2::new(p[0] as f64, p[1] as f64)).collect();
+            let off = gvi(rec, "off");
+            let pts: Vec<Point2> = gvvi(rec, "ref").iter().map(|p| Point2::new((p[0] + off[0]) as f64, (p[1] + off[1]) as f64)).collect();
             let curve = Curve2::from_points(&pts, 1e-8, true).expect("reference curve");
             let d = disp2(&rec["D"]);
-            let samples: Vec<Point2> = gvvi(rec, "samples").iter().map(|p| Point2::new(p[0] as f64 / 2.0, p[1] as f64 / 2.0)).collect();
-            let points: Vec<Point2> = samples.iter().map(|s| d * s).collect();
-            let guess = if gi(rec, "guess") == 0 { Iso2::identity() } else { Iso2::new(parry2d_f64::na::Vector2::new(0.05, -0.03), 0.02) };
+            let samples: Vec<Point2> = gvvi(rec, "samples").iter().map(|p| Point2::new(p[0] as f64 / 2.0 + off[0] as f64, p[1] as f64 / 2.0 + off[1] as f64)).collect();
+            // the displacement acts about the part (its offset), not about the far-away origin
+            let o2 = parry2d_f64::na::Vector2::new(off[0] as f64, off[1] as f64);
+            let points: Vec<Point2> = samples.iter().map(|s| Point2::from(o2) + (d * Point2::from(s.coords - o2)).coords).collect();
+            let guess = match gi(rec, "guess") {
+                0 => Iso2::identity(),
+                1 => Iso2::translation(o2.x, o2.y) * Iso2::new(parry2d_f64::na::Vector2::new(0.05, -0.03), 0.02) * Iso2::translation(-o2.x, -o2.y),
+                // a rotated guess about the part itself (rotation 0.05 rad about the offset point)
+                _ => Iso2::translation(o2.x, o2.y) * Iso2::new(parry2d_f64::na::Vector2::new(0.02, 0.04), 0.05) * Iso2::translation(-o2.x, -o2.y),
+            };
             let derived = |t: &Iso2| -> Vec<f64> { points.iter().map(|p| { let m = t * p; curve.at_closest_to_point(&m).surface_point().scalar_projection(&m) }).collect() };
             let r0 = derived(&guess);
             let _ = engeom::verif_trace::take();
@@ -86,12 +94,14 @@ pub fn exec(rec: &Value, _st: &mut State) -> Value {
             }
         }
         "mesh" => {
-            let verts: Vec<Point3> = gvvi(rec, "vpos").iter().map(|p| Point3::new(p[0] as f64, p[1] as f64, p[2] as f64)).collect();
+            let off = gvi(rec, "off");
+            let o3 = Vector3::new(off[0] as f64, off[1] as f64, off[2] as f64);
+            let verts: Vec<Point3> = gvvi(rec, "vpos").iter().map(|p| Point3::new(p[0] as f64, p[1] as f64, p[2] as f64) + o3).collect();
             let faces: Vec<[u32; 3]> = gvvi(rec, "faces").iter().map(|f| [f[0] as u32, f[1] as u32, f[2] as u32]).collect();
             let mesh = Mesh::new(verts, faces, false);
             let d = disp3(&rec["D"]);
-            let samples: Vec<Point3> = gvvi(rec, "samples").iter().map(|p| Point3::new(p[0] as f64 / 2.0, p[1] as f64 / 2.0, p[2] as f64 / 2.0)).collect();
-            let points: Vec<Point3> = samples.iter().map(|s| d * s).collect();
+            let samples: Vec<Point3> = gvvi(rec, "samples").iter().map(|p| Point3::new(p[0] as f64 / 2.0, p[1] as f64 / 2.0, p[2] as f64 / 2.0) + o3).collect();
+            let points: Vec<Point3> = samples.iter().map(|s| Point3::from(o3) + (d * Point3::from(s.coords - o3)).coords).collect();
             let plane = gs(rec, "mode") == "plane";
             let guess = Iso3::identity();
             let derived = |t: &Iso3| -> Vec<f64> { points.iter().map(|p| { let m = t * p; let sp = mesh.surf_closest_to(&m);
